@@ -320,6 +320,9 @@ def keyLoop : Nat → St → Id → Option Id → Ev → Out (St × Bool)
   | _, st, _, none, _ => pure (st, false)
   | 0, _, _, some _, _ => .fuel
   | f + 1, st, win, some child, ev => do
+    if !isAlive st.tree child then
+      (.ub s!"_handle_key: the saved next sibling {child} was freed by a handler (child->next read after free)" : Out Unit)
+    else pure ()
     let next ← nextSibling st.tree child          -- next = child->next
     let w ← get st.tree win
     if w.focusedChild = some child then keyLoop f st win next ev else
@@ -356,6 +359,9 @@ def mouseLoop : Nat → St → Option Id → Ev → Out (St × Option Id)
   | _, st, none, _ => pure (st, none)
   | 0, _, some _, _ => .fuel
   | f + 1, st, some child, ev => do
+    if !isAlive st.tree child then
+      (.ub s!"_handle_mouse: the saved next sibling {child} was freed by a handler (child->next read after free)" : Out Unit)
+    else pure ()
     let next ← nextSibling st.tree child          -- next = child->next
     let cw ← get st.tree child
     let cl := ev.line - cw.rect.top
@@ -395,6 +401,9 @@ def onTermMouse (fuel : Nat) (st : St) (ev : Ev) : Out (St × Bool) := do
       let st ← match st.tree.root.dragSource with
         | none => (pure st : Out St)
         | some src => do
+          if !isAlive st.tree src then
+            (.ub s!"on_term_mouse: drag_source_window {src} was freed during the drag (use after free)" : Out Unit)
+          else pure ()
           let geom ← absGeometry st.tree (treeFuel st.tree) src
           let (st, _) ← handleMouse fuel st src { type := evDragStop, button := ev.button, line := ev.line - geom.top, col := ev.col - geom.left }
           pure st
@@ -405,6 +414,9 @@ def onTermMouse (fuel : Nat) (st : St) (ev : Ev) : Out (St × Bool) := do
     match st.tree.root.dragSource with
     | some src =>
       if ev.type = evDrag && handled ≠ some src then do
+        if !isAlive st.tree src then
+          (.ub s!"on_term_mouse: drag_source_window {src} was freed during the drag (use after free)" : Out Unit)
+        else pure ()
         let geom ← absGeometry st.tree (treeFuel st.tree) src
         let (st, _) ← handleMouse fuel st src { type := evDragOutside, button := ev.button, line := ev.line - geom.top, col := ev.col - geom.left }
         pure st
@@ -424,8 +436,16 @@ def emitMouse (st : St) (ev : Ev) : Out St := do
 
 /-! ### the other operations of the engine -/
 
-def newSt (lines cols : Int) : St :=
+/-- A fresh root window; nothing has been pressed yet. -/
+def newSt0 (lines cols : Int) : St :=
   { tree := newRoot lines cols, owned := #[1], pending := #[false] }
+
+/-- The engine's `new`: a fresh root window followed by one PRESS of button 0 at (-1,-1) while nothing is bound
+    (it reaches no handler; it initialises the press memory). -/
+def newSt (lines cols : Int) : St :=
+  let st := newSt0 lines cols
+  { st with pressSeen := true,
+            tree := { st.tree with root := { st.tree.root with mouseLastButton := 0, mouseLastLine := -1, mouseLastCol := -1 } } }
 
 /-- `tickit_window_new` by the application (it keeps the reference). -/
 def newWin (st : St) (parent : Id) (rect : Rect) (rootParent hidden lowest steal : Bool) : Res (St × Id) := do
@@ -439,6 +459,77 @@ def addBinding (st : St) (win : Id) (kind : Kind) (entries : List Entry) : St ×
 def flushSt (st : St) : Res St := do
   let t ← flush st.tree
   pure { st with tree := t, pending := st.pending.map (fun _ => false) }
+
+/-! ### specification vocabulary: the reference offer orders of the property text -/
+
+def winVisible (t : Tree) (id : Id) : Bool :=
+  match t.wins[id]? with
+  | some w => !w.freed && w.isVisible
+  | none => false
+
+/-- `id` is live and visible, and so is every window on its parent chain. -/
+def visibleChain (t : Tree) : Nat → Id → Bool
+  | 0, _ => false
+  | f + 1, id =>
+    match t.wins[id]? with
+    | none => false
+    | some w =>
+      if w.freed || !w.isVisible then false
+      else match w.parent with
+        | none => true
+        | some p => visibleChain t f p
+
+/-- The windows a key event is offered to below and including `win`, in order, *as the code visits them*
+    (a stealing first child is visited by the steal rule and again by the loop over the children):
+    stealing front-most child, focus chain innermost first, the window itself, the other children. -/
+def keyVisits (t : Tree) : Nat → Id → List Id
+  | 0, _ => []
+  | f + 1, win =>
+    match t.wins[win]? with
+    | none => []
+    | some w =>
+      if w.freed || !w.isVisible then [] else
+      let steal := match w.children.head? with
+        | some fc => (match t.wins[fc]? with
+          | some fw => if fw.stealInput then keyVisits t f fc else []
+          | none => [])
+        | none => []
+      let foc := match w.focusedChild with
+        | some fc => keyVisits t f fc
+        | none => []
+      let rest := (w.children.filter (fun c => w.focusedChild ≠ some c)).flatMap (keyVisits t f)
+      steal ++ foc ++ [win] ++ rest
+
+/-- The reference offer order for a key event: first occurrences of `keyVisits`. -/
+def keyOrder (t : Tree) (fuel : Nat) (win : Id) : List Id := (keyVisits t fuel win).eraseDups
+
+/-- Is the cell inside the child's rectangle (cell in the parent's coordinates)? -/
+def inChild (cw : Win) (line col : Int) : Bool :=
+  decide (0 ≤ line - cw.rect.top) && decide (line - cw.rect.top < cw.rect.lines)
+    && decide (0 ≤ col - cw.rect.left) && decide (col - cw.rect.left < cw.rect.cols)
+
+/-- The windows a mouse event at `(line, col)` (in `win`'s coordinates) is offered to below and including `win`,
+    with the position each of them is given: front-most children under the pointer (or stealing) first, depth first,
+    then the window itself. -/
+def mouseVisits (t : Tree) : Nat → Id → Int → Int → List (Id × Int × Int)
+  | 0, _, _, _ => []
+  | f + 1, win, line, col =>
+    match t.wins[win]? with
+    | none => []
+    | some w =>
+      if w.freed || !w.isVisible then [] else
+      (w.children.flatMap fun c =>
+        match t.wins[c]? with
+        | some cw => if cw.stealInput || inChild cw line col then mouseVisits t f c (line - cw.rect.top) (col - cw.rect.left) else []
+        | none => []) ++ [(win, line, col)]
+
+/-- The windows of the subtree of `win` (through the children lists). -/
+def subtree (t : Tree) : Nat → Id → List Id
+  | 0, _ => []
+  | f + 1, win =>
+    match t.wins[win]? with
+    | none => [win]
+    | some w => win :: w.children.flatMap (subtree t f)
 
 end WinInput
 end Tickit
